@@ -682,6 +682,7 @@ func registerNatives(in *Interp) {
 	registerPathNatives(in)
 	registerLocksetNatives(in)
 	registerFSNatives(in)
+	registerNetipNatives(in)
 }
 
 // bufferAppend implements the write side of bytes.Buffer on its real fields.
